@@ -176,6 +176,8 @@ def c01(res):
     small = gg.f1_corpus(rng, 20) + [gg.random_graph(rng, "ck-%d" % i, 3, 4, nprops=rng.randint(1, 2)) for i in range(15 if q else 60)] \
         + [gg.random_forest(rng, "ckf-%d" % i, 3, 5) for i in range(6 if q else 20)]
     checker_design(res, small, q)
+    if not q:
+        example_2pc(res, sizes=(3, 5))
     res.assumptions += ["initial states of a model are distinct (the property's own proviso)",
                         "the recording visitor's mutex orders visits; only set/multiset facts are judged"]
 
@@ -329,6 +331,8 @@ def c10(res):
         c.append(gg.base_cfg("sim", 1, symmetry=True, target_states=40, seed=rng.randint(0, 2 ** 32)))
         return c
     run_family(res, "C10", ["sym_cover", "verdicts", "witness", "paths", "subset"], graphs, cfgs)
+    if not q:
+        example_2pc(res, sizes=(), sym_sizes=(3, 5))
     res.rule = ("(a) from_values_to_sort / reindex / rewrite on all vectors (with ties) and 13 container kinds under all plans; "
                 "(b) representative() of every reachable state of table actor systems = Permute(stable sort plan); (c) real "
                 "spawn_dfs().symmetry_fn and simulation on symmetric process-vector models (2-3 identical processes, guards, "
@@ -459,4 +463,43 @@ def checker_design(res, graphs_small, q):
                 "counters); property-level judges decide whether that is a violation" % (len(o["drift"]), o["n"]))
         res.notes.append("Checker.tla predicted %d single-threaded behaviours; %d real runs compared, %d drift" % (o["compared"], o["n"], len(o["drift"])))
         res.extra["spec_drift_runs"] = len(o["drift"])
+    shutil.rmtree(wd, ignore_errors=True)
+
+
+def example_2pc(res, sizes=(3,), sym_sizes=()):
+    """Third-party oracle: Lamport's TwoPhase spec (TLC) vs the shipped examples/2pc.rs run by the real checkers."""
+    import subprocess, re
+    wd = workdir("ex2pc-%s" % res.pid)
+    recs = []
+    for n, sym in [(k, False) for k in sizes] + [(k, True) for k in sym_sizes]:
+        r = run_tlc("MCTwoPhase.tla", "cfg/TwoPhase_%d.cfg" % n, workers=8, timeout=1800, name="twophase-%d" % n)
+        res.add_tlc(r, "TwoPhase[%d RMs]" % n)
+        if not r["ok"]:
+            raise ToolError("TwoPhase.tla: %s violated" % r["violated"])
+        distinct = r["distinct"]
+        orbits = 0
+        if sym:
+            r2 = run_tlc("MCTwoPhase.tla", "cfg/TwoPhase_%d_sym.cfg" % n, workers=1, timeout=1800, name="twophase-sym-%d" % n)
+            res.add_tlc(r2, "TwoPhase[%d RMs, SYMMETRY]" % n)
+            orbits = r2["distinct"]
+        env = dict(os.environ, CARGO_NET_OFFLINE="true")
+        p = subprocess.run(["cargo", "run", "--offline", "--release", "--example", "2pc", "--", "check-sym" if sym else "check", str(n)],
+                           cwd="/repo", env=env, stdout=subprocess.PIPE, stderr=subprocess.STDOUT, text=True, timeout=1800)
+        m = re.search(r"Done\. states=(\d+), unique=(\d+)", p.stdout)
+        if not m:
+            raise ToolError("examples/2pc did not report a result:\n" + p.stdout[-1500:])
+        recs.append(dict(n=n, symmetry=sym, states=int(m.group(1)), unique=int(m.group(2)), tlc_distinct=distinct, tlc_orbits=orbits,
+                         found_commit='Discovered "commit agreement" example' in p.stdout,
+                         found_abort='Discovered "abort agreement" example' in p.stdout,
+                         found_inconsistent='Discovered "consistent"' in p.stdout))
+    rp, op = os.path.join(wd, "ex.ndjson"), os.path.join(wd, "ex.json")
+    write_ndjson(rp, recs)
+    r = run_tlc("JudgeExamples.tla", "cfg/empty.cfg", env=dict(RECS=rp, OUT=op), timeout=300, name="jex")
+    o = json.load(open(op))
+    for i in o["bad"]:
+        res.violation("example_2pc/%s" % ("sym" if recs[i - 1]["symmetry"] else "plain"), dict(check="example_2pc", record=recs[i - 1]))
+    res.traces += len(recs)
+    res.notes.append("examples/2pc.rs vs Lamport's TwoPhase.tla: " + "; ".join(
+        "%d RMs%s: stateright unique=%d states=%d, TLC distinct=%d%s" % (x["n"], " sym" if x["symmetry"] else "", x["unique"], x["states"], x["tlc_distinct"],
+                                                                       (", TLC orbits=%d" % x["tlc_orbits"]) if x["symmetry"] else "") for x in recs))
     shutil.rmtree(wd, ignore_errors=True)
